@@ -286,7 +286,14 @@ func TestBoundedB5(t *testing.T) {
 					r["C12"].violation("model-depends-on-file-order", id, "permuting the files changes more than the order of type definitions")
 				}
 			}
-			successByPerm[len(want) == 0]++
+			successByPerm[len(firstErrs) == 0 && firstDigest != ""]++
+		}
+		if successByPerm[true] > 0 && successByPerm[false] > 0 {
+			var names []string
+			for _, i := range sub {
+				names = append(names, modulePool[i].Name)
+			}
+			r["C12"].violation("verdict-depends-on-file-order", strings.Join(names, ", "), "the merge succeeds for %d orders of these files and fails for %d", successByPerm[true], successByPerm[false])
 		}
 		for _, p := range []string{"C07", "C12", "C16", "C13"} {
 			r[p].Distinct++
